@@ -352,6 +352,36 @@ def job_count(job):
                         first = False
                     if len(out['samples']) < 3:
                         out['samples'].append({'config': cfg, 'op': name, 'a_keys': list(ak), 'b_keys': list(bk), 'value_kinds': kinds})
+            # many distinct patterns through one operator, then all of them again: nothing may be generated in the second pass,
+            # however many patterns the operator has seen in between (a cache that forgets is a cache that regenerates)
+            sweep = cfg.get('sweep', 0)
+            if sweep:
+                seen_p, pats_u = set(), []
+                while len(pats_u) < min(sweep, 2 ** N - 1):
+                    ks = tuple(rng.sample(range(N), rng.randint(1, min(N, 6))))
+                    if ks not in seen_p:
+                        seen_p.add(ks)
+                        pats_u.append(ks)
+                half = pats_u[:max(2, len(pats_u) // 2)]
+                for opname, binary in (('reverse', False), ('add', True)):
+                    f = getattr(alg, opname)
+                    todo = pats_u if not binary else list(zip(half, reversed(half)))
+                    for rnd in (0, 1, 2):
+                        before = dict(counter)
+                        for pat in (todo if rnd < 2 else list(reversed(todo))):
+                            out['evaluations'] += 1
+                            if binary:
+                                f(mv_from(alg, pat[0], [rnd + 1] * len(pat[0])), mv_from(alg, pat[1], [rnd + 2] * len(pat[1])))
+                            else:
+                                f(mv_from(alg, pat, [rnd + 1] * len(pat)))
+                        delta = {k: counter[k] - before[k] for k in counter}
+                        if rnd == 0 and delta['do_codegen'] + delta['do_compile'] != len(todo):
+                            out['failures'].append({'config': cfg, 'op': opname, 'what': 'first visits of distinct patterns did not generate exactly once each',
+                                                    'patterns': len(todo), 'events': delta})
+                        if rnd > 0 and any(delta.values()):
+                            out['failures'].append({'config': cfg, 'op': opname, 'what': f'revisiting {len(todo)} patterns generated/compiled again',
+                                                    'events': delta})
+                    n_pat += len(todo)
     finally:
         del cg.compile
         od.do_codegen, od.do_compile = real_dc, real_dcomp
